@@ -46,8 +46,10 @@ FS = st.fixed_dictionaries({
     "dir_a": st.lists(st.sampled_from(["inner", "x", "y"]), unique=True, max_size=3),
     "tar_a": st.lists(st.sampled_from(["m1", "m2", "d/m3"]), unique=True, max_size=3),
 })
+WARNING = st.fixed_dictionaries({"cat": st.sampled_from(["DeprecationWarning", "UserWarning", "FutureWarning"]),
+                                 "msg": st.sampled_from(["old", "use bar", "é", "ab"]), "lineno": st.integers(0, 3)})
 VALUES = {"int": INT, "str": STR, "bytes": BYTES, "list": LIST, "dict": DICT, "obj": OBJ,
-          "exc_info": EXC, "callable": CALLABLE, "path": PATH}
+          "exc_info": EXC, "callable": CALLABLE, "path": PATH, "warning": WARNING}
 
 
 class CustomError(Exception):
@@ -63,7 +65,7 @@ EXC_CLASSES = {"ValueError": ValueError, "KeyError": KeyError, "RuntimeError": R
                "KeyboardInterrupt": KeyboardInterrupt, "SystemExit": SystemExit, "CustomBase": CustomBase,
                "BaseException": BaseException, "ArithmeticError": ArithmeticError}
 
-WARN_CLASSES = {"DeprecationWarning": DeprecationWarning, "UserWarning": UserWarning}
+WARN_CLASSES = {"DeprecationWarning": DeprecationWarning, "UserWarning": UserWarning, "FutureWarning": FutureWarning}
 
 
 class Obj:
@@ -143,6 +145,9 @@ def live_value(domain, v, env):
         return fn
     if domain == "path":
         return env.path(v)
+    if domain == "warning":
+        return warnings.WarningMessage(message=WARN_CLASSES[v["cat"]](v["msg"]), category=WARN_CLASSES[v["cat"]],
+                                       filename="somefile.py", lineno=v["lineno"], line=None)
     if domain == "list":
         return list(v)
     if domain == "dict":
@@ -210,6 +215,8 @@ def leaf(domain):
                 st.builds(lambda e: M("raises", "callable", form="type", exc=e), st.sampled_from(EXC_NAMES + ["Exception", "KeyboardInterrupt", "BaseException", "CustomBase", "CustomBase"])),
                 st.builds(lambda e: M("raises", "callable", form="instance", inst=e), EXC),
                 st.builds(lambda: M("Warnings", "callable", inner=None))]
+    elif domain == "warning":
+        gen += [st.builds(lambda c: M("WarningMessage", "warning", cat=c, message=None, lineno=None), st.sampled_from(["DeprecationWarning", "UserWarning", "Warning"]))]
     elif domain == "path":
         gen += [st.builds(lambda n: M(n, "path"), st.sampled_from(["PathExists", "DirExists", "FileExists"])),
                 st.builds(lambda f: M("DirContains", "path", filenames=f), st.lists(st.sampled_from(["inner", "x", "y"]), unique=True, max_size=3)),
@@ -268,6 +275,10 @@ def tree(domain, depth):
         gen += [st.builds(lambda m: M("Raises", "callable", inner=m), e),
                 st.builds(lambda m: M("IsDeprecated", "callable", inner=m), s),
                 st.builds(lambda m: M("Warnings", "callable", inner=M("AfterPreprocessing", "list", fn="len", inner=m, annotate=True)), i)]
+    if domain == "warning":
+        s = tree("str", depth - 1)
+        gen += [st.builds(lambda c, m, ln: M("WarningMessage", "warning", cat=c, message=m, lineno=ln),
+                          st.sampled_from(["DeprecationWarning", "UserWarning", "FutureWarning"]), st.one_of(st.none(), s), st.one_of(st.none(), i))]
     if domain == "path":
         s = tree("str", depth - 1)
         gen += [st.builds(lambda m: M("FileContains", "path", matcher=m), s),
@@ -277,7 +288,7 @@ def tree(domain, depth):
     return out
 
 
-DOMAINS = ["int", "str", "bytes", "list", "dict", "obj", "exc_info", "callable", "path"]
+DOMAINS = ["int", "str", "bytes", "list", "dict", "obj", "exc_info", "callable", "path", "warning"]
 
 
 def depth_of(spec):
@@ -290,7 +301,7 @@ def depth_of(spec):
         kids = list(inner.values())
     elif isinstance(inner, list):
         kids = inner
-    for k in ("a", "b", "update", "value_matcher", "matcher"):
+    for k in ("a", "b", "update", "value_matcher", "matcher", "message", "lineno"):
         if isinstance(spec.get(k), dict) and "m" in spec[k]:
             kids.append(spec[k])
     for k in kids:
@@ -408,6 +419,14 @@ def build(spec, env):
         return tm.Warnings(None if spec["inner"] is None else B(spec["inner"]))
     if m == "IsDeprecated":
         return tm.IsDeprecated(B(spec["inner"]))
+    if m == "WarningMessage":
+        cat = dict(WARN_CLASSES, Warning=Warning)[spec["cat"]]
+        kw = {}
+        if spec.get("message") is not None:
+            kw["message"] = B(spec["message"])
+        if spec.get("lineno") is not None:
+            kw["lineno"] = B(spec["lineno"])
+        return tm.WarningMessage(cat, **kw)
     if m in ("PathExists", "DirExists", "FileExists"):
         return getattr(tm, m)()
     if m == "DirContains":
@@ -654,6 +673,14 @@ def _ref(spec, v, env=None):
             raise Propagates(v["raise"]["exc"])
         w = v.get("warn", [])
         return len(w) == 1 and w[0][0] == "DeprecationWarning" and R(spec["inner"], w[0][1])
+    if m == "WarningMessage":
+        # "match captured warnings of this category type" (identity of the category), message matched as text
+        ok = spec["cat"] == v["cat"]
+        if spec.get("message") is not None:
+            ok = ok and R(spec["message"], v["msg"])
+        if spec.get("lineno") is not None:
+            ok = ok and R(spec["lineno"], v["lineno"])
+        return ok
     fs = env.fs if env is not None else None
     if m in ("PathExists", "DirExists", "FileExists"):
         ex, isd, isf = _fs_kind(v, fs)
